@@ -81,7 +81,7 @@ class Ellipsoid(Shape3D):
     @a.setter
     def a(self, value):
         if value > 0:
-            self._a = value
+            self._a = float(value)
         else:
             raise ValueError("a must be greater than zero.")
 
@@ -93,7 +93,7 @@ class Ellipsoid(Shape3D):
     @b.setter
     def b(self, value):
         if value > 0:
-            self._b = value
+            self._b = float(value)
         else:
             raise ValueError("b must be greater than zero.")
 
@@ -105,7 +105,7 @@ class Ellipsoid(Shape3D):
     @c.setter
     def c(self, value):
         if value > 0:
-            self._c = value
+            self._c = float(value)
         else:
             raise ValueError("c must be greater than zero.")
 
